@@ -2,5 +2,7 @@ SPECIFICATION Spec
 CONSTANTS
   Dev_NearCallLo = FALSE
   Dev_CompressPairJalr = FALSE
+  Dev_PairLoFromSecond = FALSE
+  Dev_CompressLiOffK = FALSE
 INVARIANT Report
 CHECK_DEADLOCK FALSE
